@@ -22,6 +22,25 @@ def c02(chk, tier):
     p_registry.run_registry(chk, tier)
 
 
+def c05(chk, tier):
+    c02(chk, tier)
+    # sequential histories in a fresh process (nothing has initialised the registry), against the
+    # closed-form model RegistrySeq.tla
+    import itertools
+    import os
+    hist = ["S10", "S10,R10,D10", "S10,S12,R12,D12,S12,D12", "R10,U1,U1,S10,D10", "R10,R10,S10,S10,R10,D10",
+            "U1", "R10,R12,U2,D12,D10,S10,D10", "R12,R10,R12,U1,D12,U3,D12,S12,D12"]
+    if tier == "thorough":
+        alphabet = ["R10", "R12", "U1", "U2", "S10", "D10", "D12"]
+        hist += [",".join(p) for n in (2, 3, 4) for p in itertools.product(alphabet, repeat=n)][:1500]
+    out = os.path.join(p_probes.WORK, "probe_C05.ndjson")
+    args = ["--histories", ";".join(hist)]
+    recs = p_probes.run_probe("fresh", args, out)
+    p_probes.count(chk, recs, lambda r: (r["hist"], r["status"]))
+    found = p_probes.validate_records(chk, "TraceFresh.tla", out, "V_C05", "fresh")
+    p_probes.report(chk, found, "fresh", args)
+
+
 def c03(chk, tier):
     c02(chk, tier)
     p_iterator.run_iterator(chk, tier)
@@ -59,4 +78,4 @@ def c09(chk, tier):
 
 
 CHECKS = {"C12": p_probes.c12, "C13": p_probes.c13, "C14": p_probes.c14, "C15": p_probes.c15,
-          "C16": p_probes.c16, "C17": p_probes.c17, "C09": c09, "C10": c09, "C11": c09, "C02": c02, "C04": c02, "C05": c02, "C03": c03, "C01": c01, "C18": c18, "C06": c06, "C07": c06, "C08": c06}
+          "C16": p_probes.c16, "C17": p_probes.c17, "C09": c09, "C10": c09, "C11": c09, "C02": c02, "C04": c02, "C05": c05, "C03": c03, "C01": c01, "C18": c18, "C06": c06, "C07": c06, "C08": c06}
